@@ -337,8 +337,8 @@ def _budget_units():
 
 
 def _strategy_units():
-    from contracts.strategies import UNITS, LEMMAS
-    return [ContractUnit(u) for u in UNITS] + LEMMAS
+    from contracts.strategies import UNITS, LEMMAS, TABLES
+    return [ContractUnit(u) for u in UNITS] + LEMMAS + TABLES
 
 
 def C02():
@@ -532,6 +532,19 @@ def C03():
         design_ref="4/C03, A2-A3")
 
 
+def _shared_replayers(make):
+    """Units shared by several properties bring their native replayer with them (unless the property names one for that unit)."""
+    def g():
+        p = make()
+        if any(getattr(u, "name", "") == "strategy_registry" for u in p.units):
+            from contracts.replay_docs import replayer_any as DA
+            p.replayers.setdefault("table::strategy_registry", DA(["no_needless_break", "headings", "heading_count", "cells", "wellformed"]))
+        return p
+    g.__name__ = make.__name__
+    return g
+
+
+C02, C03, C04, C05, C06, C09 = (_shared_replayers(f) for f in (C02, C03, C04, C05, C06, C09))
 PROPERTIES = {"C03": C03, "C17": C17, "C11": C11, "C20": C20, "C13": C13, "C01": C01, "C02": C02, "C05": C05, "C07": C07, "C09": C09, "C14": C14, "C15": C15, "C18": C18, "C04": C04, "C06": C06, "C08": C08, "C10": C10, "C12": C12, "C16": C16, "C19": C19}
 
 # ---- texts for MANIFEST.json (tools/gen_manifest.py) ------------------------------------------------------
